@@ -52,7 +52,7 @@ W5_MONITORS = ['bijection']
 CASE_TIMEOUT = {"quick": 90, "thorough": 180}
 SIZES = {"quick": 600, "thorough": 4000}
 KINDS = ("relabel", "redundant", "repack", "repack", "reload", "self", "unrelated", "finder", "near", "symatom",
-         "sympath", "sympath", "finder3", "finder3", "finder3", "rotated")
+         "sympath", "sympath", "finder3", "finder3", "finder3", "rotated", "tracked")
 
 
 def shard_setup(tier):
@@ -207,6 +207,29 @@ def gen_cases(tier, seed):
                 continue
         elif kind == "repack":
             c2, p2 = dict(c1), atom_pack(rng)
+        elif kind == "tracked":
+            # the same words class without statistics on one side, with one or two on the other:
+            # two specifications of the same shape whose rules differ only in the parameters they
+            # pass down (the answer has to be the same in both directions)
+            c1 = dict(c1, stats=[])
+            letters = "".join(sorted(set(rng.choice(c1["alphabet"]) for _ in range(rng.randint(1, 2)))))
+            c2 = dict(c1, stats=[["k_0", letters]] + ([["k_1", rng.choice(c1["alphabet"])]] if rng.random() < 0.3 else []))
+            p1 = dict(p1, ver="stat", drop=False, dead=False, merge=False,
+                      inferral=[x for x in p1["inferral"] if x == "minimise"])
+            p2 = dict(p1)
+            if len(c1["alphabet"]) >= 2 and rng.random() < 0.6:
+                # ... and so that everything below the rules matches: the statistic counts a letter
+                # that is forbidden outright and the atoms shed it (drop), so the two sides have
+                # equal atoms and differ only in the parameter maps of their rules
+                x = rng.choice(c1["alphabet"])
+                c1 = dict(c1, patterns=sorted(set(c1["patterns"]) | {x}))
+                if x in c1["prefix"]:
+                    c1["prefix"] = ""
+                c2 = dict(c1, stats=[["k_0", x]])
+                p1 = dict(p1, drop=True)
+                p2 = dict(p1)
+            if rng.random() < 0.5:
+                c1, c2 = c2, c1
         elif kind in ("reload", "self"):
             c2, p2 = dict(c1), dict(p1)
         else:
